@@ -312,6 +312,8 @@ def shapes(tier, seed):
                                                         patt="ss", sum_spin=True, canary=True), modules=MODS, max_paths=32, canary=True))
     from harness.c04 import AUX_MOLS
     for key in AUX_MOLS:
+        if AUX_MOLS[key].get("basis"):
+            continue            # non-minimal-basis entries are for the Hamiltonian checks of C04 only
         for sv in ("fci", "ccsd"):
             if AUX_MOLS[key]["uhf"] and sv == "fci":
                 continue
